@@ -52,7 +52,7 @@ func runAndCompare(t *testing.T, sc *Scenario, rec *Recorder) ([]Diff, *runFacts
 			f.NonEmpty++
 		}
 	}
-	for _, e := range o.Wire.Reads(0) {
+	for _, e := range o.Wire.Reads(sc.runIdx()) {
 		if e.Tag.MustReject {
 			f.MustRejRead++
 		}
@@ -367,7 +367,7 @@ func checkC04(t *testing.T, sc *Scenario, rec *Recorder) []Diff {
 	nt := false
 	var labels []string
 	if !f.Failed {
-		for _, e := range f.O.Wire.Reads(0) {
+		for _, e := range f.O.Wire.Reads(sc.runIdx()) {
 			if e.Tag.IsDestForm && !e.Tag.FromTarget {
 				nt = true
 				labels = append(labels, "wrong-place:"+e.Tag.Field)
@@ -395,6 +395,53 @@ func TestC04(t *testing.T) {
 		sc.FiltersOff = rapid.Bool().Draw(rt, "filters_off")
 		return sc
 	}, checkC04)
+}
+
+// TestC04Reuse: the udp and tcp configurations are plain values whose Target field a caller may change between two
+// runs; "the target" of the second run is the address it was given for that run, whatever the value was used
+// for before. The last run is judged by the same reference as TestC04.
+func TestC04Reuse(t *testing.T) {
+	rec := NewRecorder("C04", "C04Reuse", "rapid scenarios of TestC04 for the udp and tcp (default and Paris) configuration values, run first against another address (or the same one) and then, with the Target field set, against the scenario's target; the last run is compared with the reference (destination marked exactly for the destination-form reply from the address of that run) and its probes must go to that address; non-trivial = the earlier run went to a different address and the last run read a destination-form reply")
+	RunProp(t, rec, func(rt *rapid.T) *Scenario {
+		sc := GenScenario(rt, GenOpts{Variants: []string{"udp4", "udp6", "tcp", "tcp-paris"}, Noise: 4, Forms: true, WrongPlace: true, Dups: true, MaxSpan: 12, SmallTimes: true, OwnWindow: true})
+		sc.Reuse = 2
+		pool := v4Targets
+		if sc.IsV6() {
+			pool = v6Targets
+		}
+		sc.ReuseFrom = oneOf(rt, "reuse_from", pool...)
+		if sc.ReuseFrom == sc.Target && !sc.Strict {
+			// relaxed matching identifies a quoted probe by target, destination port and IP ID only, all of which the
+			// two runs would share: a late answer to the first run is then, by that mode's definition, an answer to
+			// the second. The same address twice is therefore generated for strict matching only.
+			for _, a := range pool {
+				if a != sc.Target {
+					sc.ReuseFrom = a
+					break
+				}
+			}
+		}
+		return sc
+	}, func(t *testing.T, sc *Scenario, rec *Recorder) []Diff {
+		sc.earlier = nil
+		ds, f := runAndCompare(t, sc, rec)
+		nt := false
+		if !f.Failed && sc.ReuseFrom != sc.Target {
+			for _, e := range f.O.Wire.Reads(sc.runIdx()) {
+				if e.Tag.IsDestForm {
+					nt = true
+				}
+			}
+		}
+		if !f.Failed {
+			dh := f.O.Run.GetDestinationHop()
+			if (dh != nil) != (f.Info.DestTTL != 0) {
+				ds = append(ds, Diff{"C04", "dest-hop-lookup", fmt.Sprintf("GetDestinationHop()=%v but reference destination TTL=%d", dh, f.Info.DestTTL)})
+			}
+		}
+		rec.Case(scenarioKey(sc), nt, sampleOf(sc, f), "variant:"+sc.Variant, fmt.Sprintf("same_target:%v", sc.ReuseFrom == sc.Target))
+		return ds
+	})
 }
 
 // ---- C05 ----
